@@ -11,6 +11,7 @@ TRUSTED = [
     "third party modelled, validated by exact agreement only: github.com/goccy/go-yaml token.IsNeedQuoted, reserved words, LiteralBlockHeader, StringNode.String literal layout, quoteWith, Go strconv.Quote; YAML 1.2 reading of plain / single / double quoted one-line scalars and literal blocks",
     "oracles instantiated per case from the implementation's libraries: unicode.IsPrint, token.ToNumber, token.isNumber, token.isTimestamp (go:linkname), cue/literal Quote+Unquote verdict",
     "extraction (ExtrOcamlBasic, no Extract Constant), ocaml/c11_driver.ml (UTF-8 <-> code points, case parsing), harness/c11 (generators, templates that cut the scalar text out of the encoded document, projection canon())",
+    "whole documents (Yaml/Doc.v): emit_toks/parse_toks proved inverse for all data; the byte renderer emit_doc / line lexer lex_lines / read_value are tied to yaml.Encode / yaml.Extract by exact agreement on generated documents and streams (W/Z cases), the lexer-renderer link is not proved; base64 is Go's",
     "strings are valid UTF-8 (CUE strings); the legacy go.yaml.in/yaml/v3 path (CUE_EXPERIMENT=yamlgoccy=0) is not modelled",
 ]
 
@@ -69,9 +70,9 @@ def run(ctx):
             f.write(rp.get("case", "") + "\n")
         args += ["--replay-cases", cf]
     elif quick:
-        args += ["--nprobe", "25000", "--ndoc", "2500", "--njson", "2500"]
+        args += ["--nprobe", "25000", "--ndoc", "2500", "--njson", "2500", "--nwhole", "2500", "--nstream", "300"]
     else:
-        args += ["--nprobe", "250000", "--ndoc", "25000", "--njson", "25000"]
+        args += ["--nprobe", "250000", "--ndoc", "25000", "--njson", "25000", "--nwhole", "40000", "--nstream", "5000"]
     p = vlib.run(args, timeout=3000)
     dist = {}
     oracle_disagree = 0
@@ -90,7 +91,7 @@ def run(ctx):
     if oracle_disagree:
         raise vlib.CheckFailure("unicode.IsPrint and strconv.IsPrint disagree on %d runes (one oracle is used for both)" % oracle_disagree)
 
-    kinds = {"P": 0, "D": 0, "J": 0, "B": 0}
+    kinds = {"P": 0, "D": 0, "J": 0, "B": 0, "W": 0, "Z": 0}
     styles = {}
     distinct = set()
     nontrivial = 0
@@ -99,7 +100,9 @@ def run(ctx):
     known = {}
     stats = {"probe_roundtrip_ok": 0, "probe_roundtrip_known_bad": 0, "probe_emit_exact": 0, "probe_style_agree": 0,
              "probe_unmodelled_layout": 0, "doc_ok": 0, "doc_known_bad": 0, "json_same": 0, "json_known_tab": 0,
-             "json_rejected_by_json_decoder": 0, "fixed_known_cases": 0, "oracle_hypotheses_checked": 0, "bytes_empty_ok": 0}
+             "json_rejected_by_json_decoder": 0, "fixed_known_cases": 0, "oracle_hypotheses_checked": 0, "bytes_empty_ok": 0,
+             "whole_emit_exact": 0, "whole_read_and_roundtrip_ok": 0, "whole_known_class": 0, "whole_known_class_failing": 0,
+             "whole_unmodelled_key_layout": 0, "stream_emit_exact": 0, "stream_read_and_roundtrip_ok": 0}
 
     def violation(kind, c, i, m, what):
         nonlocal mism
@@ -173,6 +176,53 @@ def run(ctx):
                 stats["fixed_known_cases"] += 1
             if len(samples) < 4 and kinds["P"] % 997 == 5:
                 samples.append({"case": c[:300], "impl": i[:200], "model": m[:300]})
+        elif k in ("W", "Z"):
+            # whole documents / streams: the encoder's text must be the model's emit_doc / emit_stream
+            # byte for byte; the model reader must read it back as the data and the implementation must
+            # round-trip it, unless the document contains a string of a known class (decided by the model)
+            cw = c.split(" ")
+            mw = kv(m)
+            if "emit" not in mw:
+                violation("model-driver-failed", c, i, m, "the model driver could not process the case")
+                continue
+            tree, text = cw[2], cw[3]
+            if k == "Z" and tree.count(",") >= 1 and mw["read"] != "NONE":
+                # yaml.Extract returns a one-document stream as the document itself
+                inner = tree[1:-2]
+                if tree == "[" + inner + ",]" and mw["read"] == inner:
+                    tree = inner
+            if new and len(tree) > 40:
+                nontrivial += 1
+            pre = "whole" if k == "W" else "stream"
+            if mw["unmod"] == "1":
+                stats["whole_unmodelled_key_layout"] += 1
+                continue
+            if mw["emit"] != text:
+                violation("document-text-differs-from-model", c, i[:400], "emit=" + mw["emit"][:4000],
+                          "yaml.Encode wrote %r, the document model (Yaml/Doc.v emit_doc: block structure, indentation, "
+                          "inline [] / {}, key and scalar styles) writes %r" % (unhex(text)[:600], unhex(mw["emit"])[:600]))
+                continue
+            stats[pre + "_emit_exact"] += 1
+            impl_rt = i.startswith("rt=1")
+            model_rt = mw["read"] == tree
+            if mw["risky"] == "1":
+                stats["whole_known_class"] += 1
+                if not impl_rt:
+                    stats["whole_known_class_failing"] += 1
+            elif impl_rt and model_rt:
+                stats[pre + "_read_and_roundtrip_ok"] += 1
+            elif not impl_rt:
+                violation("document-round-trip-fails", c, i[:400], m[:400],
+                          "yaml.Extract(yaml.Encode(v)) != v for this document (text %r); no string of it is in a known class "
+                          "and the model reader returns %s" % (unhex(text)[:600], "the document" if model_rt else "something else"))
+                continue
+            else:
+                violation("model-reader-differs", c, i[:400], m[:400],
+                          "the implementation round-trips the document but the model reader (Yaml/Doc.v read_doc) does not read "
+                          "the encoder's text %r back as the data" % (unhex(text)[:600],), )
+                continue
+            if len(samples) < 9 and kinds[k] % 701 == 7:
+                samples.append({"case": c[:300], "impl": i[:100], "model": m[:300]})
         elif k == "B":
             # an empty bytes value is written as `!!binary ""` and reads back in every position
             # (C11-empty-bytes, fixed)
@@ -233,7 +283,8 @@ def run(ctx):
                 "the encoder's style and text must equal choose_style/emit of the model, and the implementation round-trips iff the model reads the text back as the string "
                 "and no listed reader deviation applies. D: random nested documents (direct check of the property; failures must be explained by strings whose own probe fails "
                 "and vanish when those are replaced). J: generated JSON texts, yaml.Extract vs json.Extract. non-trivial: P string longer than one rune or not plain; "
-                "D with >= 6 nodes; J longer than 60 hex chars; counted over distinct case lines",
+                "D with >= 6 nodes; J longer than 60 hex chars; W/Z (whole documents / streams: encoder text == emit_doc byte for byte, model reader and implementation "
+                "both read it back as the data unless the model flags a known class) with a tree text longer than 40 chars; counted over distinct case lines",
         "samples": samples,
         "case_kinds": kinds,
         "styles_chosen": styles,
@@ -250,7 +301,7 @@ def run(ctx):
 
 MANIFEST = {
     "category": "proof",
-    "text": "Coq theorems about the YAML scalar layer, for all strings: the double-quoted form written by the encoder reads back as the string; single-quoted and literal-block forms read back exactly under stated conditions, with witnesses where the encoder's own choice violates them; a plain scalar chosen by the encoder always resolves to a string and is syntactically a plain scalar except for '...' in column 0; JSON scalars resolve to the same kinds. The model is tied to /repo by exact agreement of the chosen style and the emitted text on generated strings in all positions, by agreement of the round-trip verdict, by direct round trips of random nested documents and by yaml.Extract(json) == json.Extract(json).",
-    "note": "partial: block structure, numbers, comments, anchors are covered by the direct round-trip exploration only; go.yaml.in/yaml/v3 (legacy path) and invalid UTF-8 are not modelled; third-party scanner behaviour is modelled at the scalar level and validated by correspondence.",
+    "text": "Coq theorems about the YAML scalar layer, for all strings: the double-quoted form written by the encoder reads back as the string; single-quoted and literal-block forms read back exactly under stated conditions, with witnesses where the encoder's own choice violates them; a plain scalar chosen by the encoder always resolves to a string and is syntactically a plain scalar except for '...' in column 0; JSON scalars resolve to the same kinds. Whole documents: for every data tree the indentation-based block parser inverts the encoder's token layout (also embedded in any column); inline string values read back as the string outside the stated classes and never as a non-string. The model is tied to /repo by exact agreement of the chosen style and the emitted text on generated strings in all positions, by agreement of the round-trip verdict, by byte-for-byte agreement of the whole-document emitter (and stream emitter) with yaml.Encode / yaml.EncodeStream on generated nested documents with the model reader reading the implementation's text back, by direct round trips of random nested documents and by yaml.Extract(json) == json.Extract(json).",
+    "note": "partial: the link between the byte renderer and the line lexer of the document model is tied, not proved; comments, anchors, tags, flow style from source positions and CompactSequences are not modelled; go.yaml.in/yaml/v3 (legacy path) and invalid UTF-8 are not modelled; third-party scanner behaviour is modelled at the scalar level and validated by correspondence.",
     "technique": "Coq proof (induction over strings for the scalar codecs, decision-table reasoning for the style choice) + extracted-model differential check + direct round-trip exploration",
 }
